@@ -30,6 +30,7 @@ require (
 	github.com/dgryski/go-farm v0.0.0-20190104051053-3adb47b1fb0f // indirect
 	github.com/dgryski/go-metro v0.0.0-20180109044635-280f6062b5bc // indirect
 	github.com/dustin/go-humanize v1.0.0 // indirect
+	github.com/emirpasic/gods v1.12.0 // indirect
 	github.com/getsentry/raven-go v0.2.0 // indirect
 	github.com/gogo/protobuf v1.3.1 // indirect
 	github.com/golang/protobuf v1.3.2 // indirect
@@ -48,6 +49,7 @@ require (
 	github.com/tidwall/match v1.0.1 // indirect
 	github.com/tidwall/sjson v1.0.0 // indirect
 	github.com/twmb/murmur3 v1.1.5 // indirect
+	github.com/ugorji/go v0.0.0-20170107133203-ded73eae5db7 // indirect
 	github.com/xiang90/probing v0.0.0-20160813154853-07dd2e8dfe18 // indirect
 	github.com/youzan/go-zanredisdb v0.6.3 // indirect
 	github.com/youzan/gorocksdb v0.0.0-20201201080653-1a9b5c65c962 // indirect
